@@ -2,7 +2,7 @@
 //
 //	vh-srv replay-svc   < behaviours.ndjson   C10: quiescence-stepped replay of ServiceAbs behaviours
 //	vh-srv record-svc N SEED                  C10: un-stepped concurrent histories for ServiceTrace
-//	vh-srv replay-c11   < behaviours.ndjson   C11: OrchAbs / GroupAbs / PoolAbs / CleanupAbs behaviours
+//	vh-srv replay-c11 [ncpu=k] < behaviours.ndjson   C11: OrchAbs / GroupAbs / PoolAbs / CleanupAbs behaviours
 //
 // Every behaviour line is {"n":i,"beh":{...}}; the answer is {"begin":i} followed by
 // {"n":i,"ok":bool,"key":..,"what":..,"hist":[events]}.  Expectations are never computed here:
@@ -117,6 +117,7 @@ func main() {
 		seed, _ := strconv.Atoi(os.Args[3])
 		recordSvc(n, int64(seed))
 	case "replay-c11":
+		pinCPUs(os.Args[2:]) // "ncpu=k": re-executes the process pinned to k CPUs (C11 Cleanup: one worker per CPU)
 		rt.ReadLines(func(_ int, raw json.RawMessage) {
 			var in struct {
 				N   int  `json:"n"`
